@@ -155,6 +155,12 @@ func Apply(dip *inode.Inode, op *fstxn.FsTxn, start uint64,
 		if op.OwnInum(de.inum) {
 			own = true
 			ip = op.GetInodeUnlocked(de.inum)
+		} else if de.inum < dip.Inum {
+			// Locking an inode with a smaller number (usually "..") while
+			// holding dip is the reverse of the order every other request
+			// uses and deadlocks against it. Report the entry without
+			// attributes and handle, which the protocol allows.
+			ip = nil
 		} else {
 			ip = op.GetInodeInum(de.inum)
 
@@ -163,7 +169,7 @@ func Apply(dip *inode.Inode, op *fstxn.FsTxn, start uint64,
 		f(ip, de.name, de.inum, off)
 
 		// Release inode early, if this trans didn't own it before.
-		if !own {
+		if !own && ip != nil {
 			op.ReleaseInode(ip)
 		}
 
